@@ -127,6 +127,36 @@ def plans(thorough):
     return out
 
 
+def _run_ocr_chunk(seeds):
+    core.setup_repo_path()
+    import numpy as np
+    import torch
+    torch.set_num_threads(1)
+    from pero_ocr.ocr_engine import pytorch_ocr_engine as pe
+    from props import C04
+    Stub = C04.make_engine(np, torch, pe)
+    out = {'evaluations': 0, 'nontrivial': 0, 'failures': [], 'samples': []}
+    for sd in seeds:
+        rng = np.random.RandomState(sd)
+        N, C, T = 1 + sd % 4, 3 + sd % 3, 1 + sd % 9
+        x = rng.normal(size=(N, C, T)).astype(np.float32) * 3
+        chars = list('abcd')[:C - 1] + ['~']
+        t = torch.tensor(x)
+        out['evaluations'] += 1
+        out['nontrivial'] += 1 if T >= 2 else 0
+        try:
+            text, logits = Stub(chars).run_with_logits(t)
+            want = np.transpose(x, (0, 2, 1))
+            if np.asarray(logits).shape != want.shape or not np.array_equal(np.asarray(logits), want):
+                d = np.argwhere(np.asarray(logits) != want) if np.asarray(logits).shape == want.shape else []
+                out['failures'].append({'input': {'seed': sd, 'shape': [N, C, T]},
+                                        'observed': 'returned logits differ from the network output at %d cell(s), first (line, frame, class) = %r'
+                                        % (len(d), d[0].tolist() if len(d) else None)})
+        except Exception as e:
+            out['failures'].append({'input': {'seed': sd, 'shape': [N, C, T]}, 'observed': 'raised %r' % (e,)})
+    return out
+
+
 def run(ctx):
     thorough = ctx.tier == 'thorough'
     ctx.level = 'other'
@@ -165,6 +195,17 @@ def run(ctx):
     ctx.add_bounded('process-lines', 'lists of 0..3 widths from %r x batch sizes x 5 modes; permutations of longer lists; calls after a history on the same engine' % WIDTHS,
                     res['evaluations'], res['nontrivial'], True, res['samples'], fails,
                     rule='every call of the grid; non-trivial = at least two lines', clause='own transcription / logits / window per input position; sparse keeps p >= 1e-4')
+    # the real PytorchEngineLineOCR.run_ocr (the stub engine above overrides run_ocr): what it returns as logits is the network's
+    # output for the batch, frame for frame (the greedy decoder it calls must not write into the tensor it is given)
+    res2 = bounded.pmap(_run_ocr_chunk, bounded.shard(list(range(24)), 4))
+    fails2 = []
+    if res2['failures']:
+        f = res2['failures'][0]
+        fails2.append(Failure(sig('rt', 'PytorchEngineLineOCR.run_ocr', 'returns-network-output'), 'run_ocr does not return the network output: %s' % f['observed'],
+                              function='PytorchEngineLineOCR.run_ocr', input=f['input'], observed=f['observed'], clause='returns-network-output'))
+    ctx.add_bounded('run-ocr-returns-network-output', '24 seeded N x C x T score tensors (N 1..4, C 3..5, T 1..9) through the real run_ocr with a stub torch model',
+                    res2['evaluations'], res2['nontrivial'], False, res2['samples'], fails2, rule='seeded random tensors',
+                    clause='the logits returned for a batch are the network output, permuted to N x T x C, unchanged')
     bounded.close()
     ctx.trusted += ['stub network stands for "any network whose frame output depends only on a bounded horizontal neighbourhood"', 'transformer splitting/merging is C15']
     if thorough:
